@@ -52,6 +52,8 @@ pub struct Doc {
     pub toks: Vec<Tok>,
     /// for every item the parser hands out, the offset just past the last byte it needs
     pub item_ends: Vec<usize>,
+    /// byte range of the binary and-gate section (binary AIGER): `\n` bytes in there are data
+    pub binary: Option<(usize, usize)>,
 }
 
 impl Doc {
